@@ -218,7 +218,8 @@ func (met *cff2CharstringHandler) blend(state *ps.Machine) error {
 	}
 	n := int32(state.ArgStack.Pop())
 	k := int32(len(met.scalars))
-	if n < 0 || state.ArgStack.Top < n*(k+1) {
+	// n <= Top (at most 513) also keeps n*(k+1) in the int32 range
+	if n < 0 || n > state.ArgStack.Top || state.ArgStack.Top < n*(k+1) {
 		return errors.New("missing arguments for blend operator")
 	}
 
